@@ -38,8 +38,8 @@ from harness import c07ref  # noqa: E402
 
 MAPS = {"1": [], "0F": [0x0F], "0F38": [0x0F, 0x38], "0F3A": [0x0F, 0x3A]}
 MAPNAMES = ["1", "0F", "0F38", "0F3A"]
-PCS = {"n": [], "66": [0x66], "F2": [0xF2], "F3": [0xF3]}
-PCNAMES = ["n", "66", "F2", "F3"]
+PCS = {"n": [], "66": [0x66], "F2": [0xF2], "F3": [0xF3], "66F2": [0x66, 0xF2], "66F3": [0x66, 0xF3]}
+PCNAMES = ["n", "66", "F2", "F3", "66F2", "66F3"]
 TAIL = [0x24, 0x10, 0x20, 0x30, 0x40, 0x50, 0x60, 0x70, 0x11, 0x21, 0x31, 0x41]
 LEGACY_PREFIXES = {0x26, 0x2E, 0x36, 0x3E, 0x64, 0x65, 0x66, 0x67, 0xF0, 0xF2, 0xF3}
 
@@ -90,10 +90,10 @@ def key_strings(mode, mapname, op, pc, w, a67=False):
 
 def measure(job):
     """one (mode, mapname, op): probe every column -> {col: [ (ok, len, branch) x 256 ]}"""
-    mode, mapname, op = job
+    mode, mapname, op, pcs = job
     cols = []
     strings = []
-    for pc in PCNAMES:
+    for pc in pcs:
         for w in ((0, 1) if mode == 64 else (0,)):
             for a67 in ((False, True) if mapname == "1" else (False,)):
                 hl, ss = key_strings(mode, mapname, op, pc, w, a67)
@@ -115,7 +115,7 @@ def measure(job):
 # folding measurements into attributes
 
 def opsize_of(pc, w):
-    return 64 if w else (16 if pc == "66" else 32)
+    return 64 if w else (16 if pc.startswith("66") else 32)
 
 
 KINDS = ["0", "ib", "iw", "i3", "iz", "iv", "ap", "i4", "i8"]
@@ -162,7 +162,8 @@ def fit_kind(meas, mode):
 
 
 def columns(meas, mode):
-    """meas: {(pc, w, a67): immediate bytes} of the valid probes -> the 8 kinds <<n, 66, F2, F3>> x REX.W 0, 1.
+    """meas: {(pc, w, a67): immediate bytes} of the valid probes -> the 12 kinds
+    <<n, 66, F2, F3, 66+F2, 66+F3>> x REX.W 0, 1.
     One kind for all valid columns if possible, otherwise per prefix column, otherwise per (prefix, W)."""
     k_all = fit_kind(meas, mode)
     out = []
@@ -225,7 +226,7 @@ def fold(mode, mapname, op, cols):
                 meas[(pc, int(w), 0)] = ns.pop()
         out = columns(meas, mode)
         if brs - {0}:
-            out = ["x"] * 8      # a ModRM opcode with a direct target: not modelled
+            out = ["x"] * (2 * len(PCNAMES))      # a ModRM opcode with a direct target: not modelled
         return out
 
     mem, reg = [], []
@@ -294,7 +295,7 @@ def emit_tla(table, path, meta):
     lines.append("(* k = \"p\" prefix/escape byte, \"x\" outside the claimed domain (rejected by  *)")
     lines.append("(* a reference, references disagree, VEX/EVEX/XOP, irregular), \"n\" no ModRM, *)")
     lines.append("(* \"m\" ModRM. Immediate kinds are indexed by the mandatory-prefix column     *)")
-    lines.append("(* <<none, 66, F2, F3>> without REX.W followed by the same four with REX.W:  *)")
+    lines.append("(* <<none, 66, F2, F3, 66+F2, 66+F3>> without REX.W, then the same with REX.W: *)")
     lines.append("(* \"x\" invalid, \"0\" \"ib\" \"iw\" \"i3\" \"iz\" \"iv\" \"ap\"                             *)")
     lines.append("(* \"mo\" \"i4\" \"i8\" (see ImmBytes in X86Len). mem[/digit+1] = memory forms,   *)")
     lines.append("(* reg[/digit+1] = register forms (u: uniform over rm, else ks[rm+1]).       *)")
@@ -335,13 +336,23 @@ def main():
         jobs_n = int(sys.argv[sys.argv.index("--jobs") + 1])
     raw_path = os.path.join(VERIF, ".work", "c07_optab_raw.json.gz")
     t0 = time.time()
+    raw = {}
     if "--reuse" in sys.argv and os.path.exists(raw_path):
         raw = json.load(gzip.open(raw_path, "rt"))
-    else:
-        jobs = [(mode, mapname, op) for mode in (32, 64) for mapname in MAPNAMES for op in range(256)]
+    # probe what the cache (if any) does not have yet
+    jobs = []
+    for mode in (32, 64):
+        for mapname in MAPNAMES:
+            for op in range(256):
+                have = set(c.split("/")[0] for c in raw.get("%d/%s/%d" % (mode, mapname, op), {}))
+                missing = [pc for pc in PCNAMES if pc not in have]
+                if missing:
+                    jobs.append((mode, mapname, op, missing))
+    if jobs:
         with mp.Pool(jobs_n) as pool:
             res = pool.map(measure, jobs, chunksize=8)
-        raw = {"%d/%s/%d" % (m, mn, op): cols for (m, mn, op, cols) in res}
+        for (m, mn, op, cols) in res:
+            raw.setdefault("%d/%s/%d" % (m, mn, op), {}).update(cols)
         os.makedirs(os.path.dirname(raw_path), exist_ok=True)
         json.dump(raw, gzip.open(raw_path, "wt"))
     print("measured %d opcodes in %.1fs" % (len(raw), time.time() - t0))
